@@ -1259,6 +1259,14 @@ package bpmn
 //@     invariant count(WgDone, wg) == old(count(WgDone, wg))
 //@     invariant ps.mch == old(ps.mch) && ps.done == old(ps.done)
 //@     iter ensures [at-most-one-message-per-trace] count(Send, throwMessage) <= old(count(Send, throwMessage)) + 1
+//@     iter ensures [every-throw-event-flow-trace-that-carries-an-id-is-handed-to-the-router-none-is-dropped]
+//@       count(Send, throwMessage) - old(count(Send, throwMessage)) ==
+//@         ndirectTrue(code("schema|(*BaseElement).Id")) - old(ndirectTrue(code("schema|(*BaseElement).Id")))
+//@     iter ensures [an-id-is-looked-up-only-for-the-flow-trace-of-a-throw-event]
+//@       ndirect(code("schema|(*BaseElement).Id")) > old(ndirect(code("schema|(*BaseElement).Id"))) ==>
+//@         is(trace, FlowTrace) && is(trace.(FlowTrace).Source, *schema.ThrowEvent)
+//@     iter ensures [nothing-else-is-taken-for-a-throw]
+//@       !(is(trace, FlowTrace) && is(trace.(FlowTrace).Source, *schema.ThrowEvent)) ==> count(Send, throwMessage) == old(count(Send, throwMessage))
 //@     iter ensures [a-listener-is-counted-before-it-is-started]
 //@             count(WgAdd, wg) - old(count(WgAdd, wg)) == count(Spawn, code("(*ProcessSet).tracerProcess$1")) - old(count(Spawn, code("(*ProcessSet).tracerProcess$1")))
 
